@@ -16,10 +16,11 @@ import (
 type Profile struct {
 	Name    string
 	Weights map[string]int
+	Inflate int // 1 in Inflate sequences has a caller whose recorded counters put its threshold near 2^32, 2^63, 2^64 or beyond
 }
 
-var ProfileC08 = Profile{"c08", map[string]int{"new": 30, "xfer": 30, "ej": 14, "upg": 6, "ck": 6, "wr": 5, "sol": 4, "fg": 3, "info": 2}}
-var ProfileC09 = Profile{"c09", map[string]int{"new": 10, "xfer": 4, "ej": 3, "upg": 2, "ck": 4, "wr": 34, "sol": 20, "fg": 16, "info": 7}}
+var ProfileC08 = Profile{"c08", map[string]int{"new": 30, "xfer": 30, "ej": 14, "upg": 6, "ck": 6, "wr": 5, "sol": 4, "fg": 3, "info": 2}, 5}
+var ProfileC09 = Profile{"c09", map[string]int{"new": 10, "xfer": 4, "ej": 3, "upg": 2, "ck": 4, "wr": 34, "sol": 20, "fg": 16, "info": 7}, 12}
 
 var opOrder = []string{"new", "xfer", "ej", "upg", "ck", "wr", "sol", "fg", "info"}
 
@@ -131,7 +132,7 @@ func genLookups(rng *h.Rng, a *Acct, t, d uint32, kvOK bool) {
 }
 
 func (a *Acct) exactThr() *big.Int {
-	i, o := a.Footprint()
+	i, o := a.Recorded()
 	return ExactThreshold(i, o, a.Gratis)
 }
 
@@ -142,6 +143,51 @@ func genGratis(rng *h.Rng, a *Acct) {
 	i, o := a.Footprint()
 	raw := ExactThreshold(i, o, 0).Uint64()
 	a.Gratis = pick64(rng, around(rng, raw), around(rng, raw), raw/2, raw+uint64(rng.Intn(1000)), boundary64(rng))
+}
+
+
+// only calls that read the recorded counters (never update them) are run on an inflated caller
+var inflatedWeights = map[string]int{"new": 45, "xfer": 30, "ej": 8, "upg": 5, "ck": 5, "info": 7}
+
+var two64 = new(big.Int).Lsh(big.NewInt(1), 64)
+
+// inflate gives the caller recorded counters (and possibly a gratis offset) that put its threshold at a chosen
+// place; returns the kind for the statistics
+func inflate(rng *h.Rng, a *Acct) string {
+	kind := []string{"t32", "t63", "t64", "t64", "sat", "sat"}[rng.Intn(6)]
+	items := uint32(pick64(rng, uint64(rng.Intn(50)), uint64(rng.Intn(50)), around(rng, (1<<32)/10), 1<<32-1-uint64(rng.Intn(3))))
+	gratis := pick64(rng, 0, 0, uint64(rng.Intn(1000)), boundary64(rng))
+	var t *big.Int
+	switch kind {
+	case "t32":
+		t = new(big.Int).SetUint64(around(rng, 1<<32) + uint64(rng.Intn(3))*(1<<32))
+	case "t63":
+		t = new(big.Int).SetUint64(around(rng, 1<<63))
+	case "t64": // within reach of a_t below 2^64
+		t = new(big.Int).SetUint64(^uint64(0) - pick64(rng, uint64(rng.Intn(4)), uint64(rng.Intn(3000)), uint64(rng.Intn(3000)), around(rng, 1<<32), uint64(rng.Intn(1<<20))))
+	default: // the exact threshold does not fit a uint64
+		t = new(big.Int).Add(two64, new(big.Int).SetUint64(pick64(rng, 0, 1, uint64(rng.Intn(1000)), boundary64(rng)>>1)))
+	}
+	// octets = t - 100 - 10*items + gratis, which must be a uint64 (otherwise fall back to gratis 0 / few items)
+	oct := func() *big.Int {
+		o := new(big.Int).Sub(t, big.NewInt(100))
+		o.Sub(o, new(big.Int).Mul(big.NewInt(10), new(big.Int).SetUint64(uint64(items))))
+		return o.Add(o, new(big.Int).SetUint64(gratis))
+	}
+	o := oct()
+	if o.Sign() < 0 || !o.IsUint64() {
+		gratis = 0
+		o = oct()
+	}
+	if o.Sign() < 0 {
+		items = uint32(rng.Intn(50))
+		o = oct()
+	}
+	if !o.IsUint64() {
+		o.SetUint64(^uint64(0))
+	}
+	a.HasRC, a.RCItems, a.RCOctets, a.Gratis = true, items, o.Uint64(), gratis
+	return kind
 }
 
 // GenSeq produces one sequence case. The generator drives the real code while it generates, so that the
@@ -224,10 +270,20 @@ func GenSeq(rng *h.Rng, prof Profile, nops int, st h.Stats) *Case {
 	for _, v := range c.In {
 		budget.Sub(budget, new(big.Int).SetUint64(v))
 	}
+	inflated := prof.Inflate > 0 && rng.Chance(1, prof.Inflate)
+	if inflated {
+		k := inflate(rng, &c.Accts[0])
+		budget.Sub(budget, big.NewInt(1)) // supply <= 2^64-2: no balance can ever equal a saturated threshold
+		st.Inc(prof.Name + "-inflated-" + k)
+	}
 	thrs := make([]*big.Int, len(c.Accts))
 	for i := range c.Accts {
 		a := &c.Accts[i]
 		thr := a.exactThr()
+		if i == 0 && inflated {
+			thrs[i] = thr
+			continue
+		}
 		if !thr.IsUint64() || thr.Cmp(new(big.Int).Rsh(budget, 3)) > 0 {
 			// unaffordable footprint: drop the big entries
 			a.Look, a.Stor, a.Pre, a.Gratis = nil, nil, nil, 0
@@ -239,7 +295,40 @@ func GenSeq(rng *h.Rng, prof Profile, nops int, st h.Stats) *Case {
 		thrs[i] = thr
 		budget.Sub(budget, thr)
 	}
+	if inflated {
+		// balance around the (representable) threshold, around threshold + a_t for typical a_t, or small
+		t := new(big.Int).Set(thrs[0])
+		if !t.IsUint64() {
+			t.SetUint64(^uint64(0))
+		}
+		at := pick64(rng, 201, 201+uint64(rng.Intn(3000)), 2001, 201+(1<<32-1))
+		var b *big.Int
+		switch rng.Intn(6) {
+		case 0:
+			b = new(big.Int).SetUint64(around(rng, t.Uint64()))
+		case 1, 2:
+			b = new(big.Int).Add(t, new(big.Int).SetUint64(around(rng, at)))
+		case 3:
+			b = new(big.Int).Add(t, new(big.Int).SetUint64(uint64(rng.Intn(5000))))
+		case 4:
+			b = new(big.Int).SetUint64(around(rng, at) - uint64(rng.Intn(2)))
+		default:
+			b = new(big.Int).SetUint64(uint64(rng.Intn(5000)))
+		}
+		lim := new(big.Int).Sub(budget, big.NewInt(1)) // keeps the balance <= 2^64-2 (a saturated threshold stays unreachable)
+		if b.Cmp(lim) > 0 {
+			b.Set(lim)
+			if rng.Bool() {
+				b.Sub(b, new(big.Int).SetUint64(uint64(rng.Intn(3000))))
+			}
+		}
+		c.Accts[0].Bal = b.Uint64()
+		budget.Sub(budget, b)
+	}
 	for i := len(c.Accts) - 1; i >= 0; i-- {
+		if i == 0 && inflated {
+			continue
+		}
 		slack := new(big.Int).SetUint64(pick64(rng, 0, 1, uint64(rng.Intn(400)), uint64(rng.Intn(400)), uint64(rng.Intn(100000)), boundary64(rng), boundary64(rng)))
 		if slack.Cmp(budget) > 0 || (i == 0 && rng.Chance(1, 12)) { // the caller holds everything that is left: total = 2^64-1
 			slack.Set(budget)
@@ -249,25 +338,33 @@ func GenSeq(rng *h.Rng, prof Profile, nops int, st h.Stats) *Case {
 	}
 	// ops, drawn against the live state of the real implementation
 	r := NewRunner(c)
+	weights := prof.Weights
+	if inflated {
+		weights = inflatedWeights
+	}
 	total := 0
 	for _, k := range opOrder {
-		total += prof.Weights[k]
+		total += weights[k]
 	}
 	for n := 0; n < nops; n++ {
 		w := rng.Intn(total)
 		name := ""
 		for _, k := range opOrder {
-			if w < prof.Weights[k] {
+			if w < weights[k] {
 				name = k
 				break
 			}
-			w -= prof.Weights[k]
+			w -= weights[k]
 		}
 		o := genOp(rng, c, r, name)
 		c.Ops = append(c.Ops, o)
 		out := r.Step(o)
-		st.Inc(prof.Name + "-" + name)
-		st.Inc(prof.Name + "-" + name + "-" + classify(out))
+		tag := prof.Name
+		if inflated {
+			tag += "-infl"
+		}
+		st.Inc(tag + "-" + name)
+		st.Inc(tag + "-" + name + "-" + classify(out))
 	}
 	return c
 }
@@ -305,6 +402,10 @@ func genOp(rng *h.Rng, c *Case, r *Runner, name string) []string {
 	if thrB.IsUint64() && thrB.Uint64() <= bal {
 		free = bal - thrB.Uint64()
 	}
+	gapT := uint64(0) // 2^64-1 minus the caller's threshold, 0 when the threshold does not fit
+	if thrB.IsUint64() {
+		gapT = ^uint64(0) - thrB.Uint64()
+	}
 	ids := sortedIDs(d)
 	someID := func() uint64 {
 		switch rng.Intn(8) {
@@ -319,9 +420,28 @@ func genOp(rng *h.Rng, c *Case, r *Runner, name string) []string {
 	switch name {
 	case "new":
 		var l uint64
-		switch rng.Intn(6) {
+		gap := uint64(0) // distance from the caller's threshold to 2^64 (when it is within a code length)
+		if thrB.IsUint64() {
+			gap = ^uint64(0) - thrB.Uint64()
+		}
+		sel := rng.Intn(6)
+		if !thrB.IsUint64() || gap < 1<<33 || rng.Chance(1, 10) {
+			sel = rng.Intn(8)
+		}
+		switch sel {
+		case 6: // a_t around 2^64 - (x_s)_t, or any small code length
+			l = uint64(rng.Intn(5000))
+			if gap < 1<<32 && rng.Bool() {
+				l = around(rng, gap+1-min64(gap+1, 201))
+			}
+		case 7: // a_t = balance + 1, balance, ...
+			l = around(rng, bal-min64(bal, 200))
 		case 0, 1, 2: // a_t = 201 + l around the free balance
-			l = around(rng, free-min64(free, 201))
+			base := free
+			if rng.Chance(2, 5) { // leave something for later calls
+				base = free / uint64(2+rng.Intn(3))
+			}
+			l = around(rng, base-min64(base, 201))
 		case 3:
 			l = uint64(rng.Intn(300))
 		case 4:
@@ -361,7 +481,7 @@ func genOp(rng *h.Rng, c *Case, r *Runner, name string) []string {
 		case 6:
 			amt = free / uint64(2+rng.Intn(5))
 		case 7:
-			amt = pick64(rng, 0, ^uint64(0), ^uint64(0)-bal, (^uint64(0)-bal)+1+uint64(rng.Intn(3)))
+			amt = pick64(rng, 0, ^uint64(0), ^uint64(0)-bal, (^uint64(0)-bal)+1+uint64(rng.Intn(3)), around(rng, gapT))
 		}
 		l := uint64(rng.Intn(60))
 		if rng.Chance(1, 6) {
